@@ -3,6 +3,7 @@ CONSTANTS
   Peer <- P2
   Group <- G2
   MaxKnown = 1
+  HsDirs = {"in"}
   FNode = {}
   Overlays = {}
   Joined = {}
